@@ -542,11 +542,13 @@ Proof.
   - subst s'. reflexivity.
 Qed.
 
-Lemma mon_call_model h w k prev : dom h w -> (prev = None \/ prev = Some (observe h w)) ->
+Definition is_time (k : call) : bool := match k with Advance _ | Ledger _ _ => true | _ => false end.
+
+Lemma mon_call_model_core h w k prev : is_time k = false -> dom h w -> (prev = None \/ prev = Some (observe h w)) ->
   let wo := step (cfg_of h) w k in
   dom h (fst wo) -> mon_call h prev k (snd wo) (observe h (fst wo)) = true.
 Proof.
-  intros Hd Hp wo Hd'. unfold mon_call. destruct k; try reflexivity.
+  intros Hnt Hd Hp wo Hd'. unfold mon_call. destruct k; try reflexivity; try discriminate.
   - (* Invalidate *)
     destruct (snd wo) eqn:Eo; [|reflexivity]. destruct Hp as [-> | ->]; [reflexivity|].
     subst wo. cbn [step] in *. unfold upd in *.
@@ -633,6 +635,41 @@ Lemma outcome_eqb_refl out : outcome_eqb out out = true.
 Proof.
   apply res_eqb_refl. intros [ | b | b | id | p s r | ca vu p | oa]; cbn;
     rewrite ?Bool.eqb_reflx, ?bytes_eqb_refl, ?cid_eqb_refl, ?Z.eqb_refl, ?(opt_eqb_refl _ N.eqb_refl); reflexivity.
+Qed.
+
+Lemma list_eqb_map2 {A B} (e : B -> B -> bool) (f g : A -> B) l :
+  (forall x, e (f x) (g x) = true) -> list_eqb e (map f l) (map g l) = true.
+Proof. intros H. induction l; cbn; auto. rewrite H, IHl. reflexivity. Qed.
+
+(* a step that only moves the clock leaves every stored item observed as before *)
+Lemma static_model h w w' :
+  w_ctis w' = w_ctis w -> w_irss w' = w_irss w -> w_idents w' = w_idents w -> w_issuers w' = w_issuers w ->
+  w_vcti w' = w_vcti w -> w_virs w' = w_virs w -> static_eqb (observe h w) (observe h w') = true.
+Proof.
+  intros E1 E2 E3 E4 E5 E6. unfold static_eqb, observe. cbn [o_ctis o_irss o_idents o_issuers o_ver vo_cti vo_irs].
+  rewrite E1, E2, E3, E4, E5, E6.
+  assert (H1 : forall x, cti_obs_eqb x x = true) by (intros x; pose proof (obs_eqb_refl (OBS 0 [x] [] [] [] (VO None None []))) as X;
+    unfold obs_eqb in X; cbn in X; rewrite !andb_true_r in X; exact X).
+  assert (H2 : forall x, irs_obs_eqb x x = true) by (intros x; pose proof (obs_eqb_refl (OBS 0 [] [x] [] [] (VO None None []))) as X;
+    unfold obs_eqb in X; cbn in X; rewrite !andb_true_r in X; exact X).
+  assert (H4 : forall x, issuer_obs_eqb x x = true) by (intros x; pose proof (obs_eqb_refl (OBS 0 [] [] [] [x] (VO None None []))) as X;
+    unfold obs_eqb in X; cbn in X; rewrite !andb_true_r in X; exact X).
+  rewrite (list_eqb_refl _ H1), (list_eqb_refl _ H2), (list_eqb_refl _ H4), !(opt_eqb_refl _ N.eqb_refl). cbn [andb].
+  rewrite !andb_true_r. apply list_eqb_map2. intros d.
+  unfold observe_ident. cbn [do_ids do_claims]. rewrite (list_eqb_refl _ (list_eqb_refl _ cid_eqb_refl)). cbn [andb].
+  rewrite !map_map. apply list_eqb_map2. intros i. rewrite !map_map. apply list_eqb_map2. intros t.
+  unfold observe_cell. destruct (get_claim _ (i, t)) as [cl|]; cbn [strip_cd]; [|reflexivity].
+  cbn [cd_claim cd_info]. unfold the_issuer. rewrite E4. cbn [opt_eqb].
+  apply (pair_eqb_refl _ _ claim_eqb_refl (opt_eqb_refl _ info_eqb_refl)).
+Qed.
+
+Lemma mon_call_model h w k prev : dom h w -> (prev = None \/ prev = Some (observe h w)) ->
+  let wo := step (cfg_of h) w k in
+  dom h (fst wo) -> mon_call h prev k (snd wo) (observe h (fst wo)) = true.
+Proof.
+  intros Hd Hp wo Hd'. destruct (is_time k) eqn:Et; [|apply mon_call_model_core; auto].
+  destruct k; try discriminate; subst wo; cbn [step fst snd mon_call];
+    (destruct Hp as [-> | ->]; [reflexivity | apply static_model; reflexivity]).
 Qed.
 
 Lemma observe_set_revq h w : observe (set_revq h (revq_of (observe h w))) w = observe h w.
